@@ -243,7 +243,7 @@ def run(ctx):
                    cmd, f(m, pre, 'authMech')), det(t),
                nontrivial=bool(outs) or post == CLOSE)
     # D6 -----------------------------------------------------------------------
-    written = set()
+    written = set(dir(object()))      # what every instance has (__class__ ..)
     for k in prog.mro(cls):
         written |= set(k.attrs) | set(k.methods)
         for fn in k.methods.values():
